@@ -48,13 +48,25 @@ var wanted = map[string][]string{
 	"dtlcp": {
 		"newReplayWindow", "replayWindow.span", "replayWindow.check",
 		"newFragmentBuffer", "fragmentBuffer.addFragment", "fragmentBuffer.complete", "fragmentBuffer.assembled",
+		"extractPadding", "roundUp", "requiresClientCert", "supportedVersionsFromMax",
+		"dtlcpWriteHeader", "dtlcpIsCompleteMessage",
+		"certificateMsg.unmarshal", "certificateRequestMsg.unmarshal", "serverKeyExchangeMsg.unmarshal",
+		"clientKeyExchangeMsg.unmarshal", "serverHelloDoneMsg.unmarshal",
 	},
 	"tlcp": {
-		"extractPadding", "roundUp", "requiresClientCert",
+		"extractPadding", "roundUp", "requiresClientCert", "supportedVersionsFromMax",
+		"tlcpIsCompleteMessage",
+		"certificateMsg.unmarshal", "certificateRequestMsg.unmarshal", "serverKeyExchangeMsg.unmarshal",
+		"clientKeyExchangeMsg.unmarshal", "serverHelloDoneMsg.unmarshal",
 	},
 }
 
 var pkgOrder = []string{"tlcp", "dtlcp"}
+
+// loopFuel: bounds (Go expressions over the function's parameters) for loops that are not
+// counting loops, in source order, keyed by "pkg.func".  A bound that is too small makes the
+// translated function fail with "loop fuel exhausted"; the tie theorems show it never does.
+var loopFuel = map[string][]string{}
 
 type decls struct {
 	fset  *token.FileSet
@@ -114,11 +126,14 @@ func recvName(e ast.Expr) string {
 }
 
 // synth prints the chosen declarations into one file and type-checks it, pulling in
-// further package-level declarations for every "undefined: X" the checker reports.
-func synth(d *decls, pkgName string, fns []string) (*token.FileSet, *ast.File, *types.Info, *types.Package, error) {
+// further package-level declarations for every "undefined: X" the checker reports.  A function
+// that needs something outside the subset (another package, an untranslated callee) is dropped
+// and reported in `dropped` with the reason; the others are still translated.
+func synth(d *decls, pkgName string, fns []string) (*token.FileSet, *ast.File, *types.Info, *types.Package, map[string]string, error) {
 	chosenGen := map[*ast.GenDecl]bool{}
 	var genOrder []*ast.GenDecl
-	for round := 0; round < 40; round++ {
+	dropped := map[string]string{}
+	for round := 0; round < 200; round++ {
 		var buf bytes.Buffer
 		fmt.Fprintf(&buf, "package %s\n\nimport \"time\"\n\nvar _ = time.Now\n\n", pkgName)
 		for _, g := range genOrder {
@@ -127,7 +142,7 @@ func synth(d *decls, pkgName string, fns []string) (*token.FileSet, *ast.File, *
 		}
 		for _, fn := range fns {
 			fd := d.funcs[fn]
-			if fd == nil {
+			if fd == nil || dropped[fn] != "" {
 				continue
 			}
 			printer.Fprint(&buf, d.fset, fd)
@@ -136,44 +151,78 @@ func synth(d *decls, pkgName string, fns []string) (*token.FileSet, *ast.File, *
 		fset := token.NewFileSet()
 		f, err := parser.ParseFile(fset, pkgName+"_synth.go", buf.Bytes(), 0)
 		if err != nil {
-			return nil, nil, nil, nil, fmt.Errorf("synthetic file does not parse: %v", err)
+			return nil, nil, nil, nil, dropped, fmt.Errorf("synthetic file does not parse: %v", err)
 		}
-		var undefined []string
-		var other []string
+		type terr struct {
+			pos token.Pos
+			msg string
+		}
+		var undefined, other []terr
 		conf := types.Config{
 			Importer: importer.ForCompiler(fset, "source", nil),
 			Error: func(err error) {
-				msg := err.(types.Error).Msg
-				if strings.HasPrefix(msg, "undefined: ") {
-					undefined = append(undefined, strings.TrimPrefix(msg, "undefined: "))
-				} else if !strings.Contains(msg, "declared and not used") {
-					other = append(other, err.Error())
+				te := err.(types.Error)
+				if strings.HasPrefix(te.Msg, "undefined: ") {
+					undefined = append(undefined, terr{te.Pos, strings.TrimPrefix(te.Msg, "undefined: ")})
+				} else if !strings.Contains(te.Msg, "declared and not used") {
+					other = append(other, terr{te.Pos, te.Msg})
 				}
 			},
 		}
 		info := &types.Info{Types: map[ast.Expr]types.TypeAndValue{}, Defs: map[*ast.Ident]types.Object{},
 			Uses: map[*ast.Ident]types.Object{}, Selections: map[*ast.SelectorExpr]*types.Selection{}}
 		tp, _ := conf.Check(pkgName, fset, []*ast.File{f}, info)
-		if len(undefined) == 0 {
-			if len(other) > 0 {
-				return nil, nil, nil, nil, fmt.Errorf("type errors: %s", strings.Join(other, "; "))
+		if len(undefined) == 0 && len(other) == 0 {
+			return fset, f, info, tp, dropped, nil
+		}
+		// which function (if any) does a position belong to?
+		owner := func(pos token.Pos) string {
+			for _, dc := range f.Decls {
+				if fd, ok := dc.(*ast.FuncDecl); ok && fd.Pos() <= pos && pos <= fd.End() {
+					key := fd.Name.Name
+					if fd.Recv != nil && len(fd.Recv.List) == 1 {
+						key = recvName(fd.Recv.List[0].Type) + "." + key
+					}
+					return key
+				}
 			}
-			return fset, f, info, tp, nil
+			return ""
 		}
 		progress := false
 		for _, u := range undefined {
-			if g := d.gens[u]; g != nil && !chosenGen[g] {
-				chosenGen[g] = true
-				genOrder = append(genOrder, g)
+			if g := d.gens[u.msg]; g != nil {
+				if !chosenGen[g] {
+					chosenGen[g] = true
+					genOrder = append(genOrder, g)
+					progress = true
+				}
+				continue
+			}
+			if fn := owner(u.pos); fn != "" && dropped[fn] == "" {
+				dropped[fn] = "needs " + u.msg + ", which is outside the subset"
 				progress = true
 			}
 		}
+		if len(undefined) == 0 {
+			for _, e := range other {
+				if fn := owner(e.pos); fn != "" && dropped[fn] == "" {
+					dropped[fn] = "type error: " + e.msg
+					progress = true
+				}
+			}
+		}
 		if !progress {
-			sort.Strings(undefined)
-			return nil, nil, nil, nil, fmt.Errorf("needs declarations outside the subset: %s", strings.Join(undefined, ", "))
+			var msgs []string
+			for _, u := range undefined {
+				msgs = append(msgs, "undefined: "+u.msg)
+			}
+			for _, e := range other {
+				msgs = append(msgs, e.msg)
+			}
+			return nil, nil, nil, nil, dropped, fmt.Errorf("cannot type-check the selected declarations: %s", strings.Join(msgs, "; "))
 		}
 	}
-	return nil, nil, nil, nil, fmt.Errorf("declaration closure did not converge")
+	return nil, nil, nil, nil, dropped, fmt.Errorf("declaration closure did not converge")
 }
 
 // ---------------------------------------------------------------------------
@@ -197,6 +246,12 @@ type tr struct {
 	recv    types.Object
 	results []types.Object // named results
 	meta    *fnMeta
+	pre     []string              // statements to emit before the one being translated
+	pkgVars map[types.Object]string // package-level variables emitted as Lean constants
+	tmpN    int
+	loopN   int
+	actN    int // number of checked-helper calls emitted so far (to detect effects in a sub-expression)
+	pkgName string
 }
 
 type field struct {
@@ -213,6 +268,7 @@ type fnMeta struct {
 	mutRecv  bool // assigns through its pointer receiver
 	hasRecv  bool
 	ptrRecv  bool
+	mutParam []string // names of slice parameters written through (returned after the receiver)
 }
 
 var leanKeywords = map[string]bool{"end": true, "at": true, "from": true, "have": true, "show": true, "with": true,
@@ -357,14 +413,18 @@ func (t *tr) constLit(v constant.Value, ty types.Type) string {
 	return fmt.Sprintf("%s#%d", s, w)
 }
 
+func mangle(n string) string {
+	if leanKeywords[n] {
+		return n + "'"
+	}
+	return n
+}
+
 func (t *tr) name(obj types.Object) string {
 	if n, ok := t.names[obj]; ok {
 		return n
 	}
-	base := obj.Name()
-	if leanKeywords[base] {
-		base += "'"
-	}
+	base := mangle(obj.Name())
 	n := base
 	if c := t.used[base]; c > 0 {
 		n = fmt.Sprintf("%s_%d", base, c)
@@ -436,6 +496,7 @@ func (t *tr) intOf(e ast.Expr) string {
 func (t *tr) act(s string) string {
 	// a call of a checked helper: only legal in a monadic function
 	t.meta.panics = true
+	t.actN++
 	return "(← " + s + ")"
 }
 
@@ -455,8 +516,20 @@ func (t *tr) expr(e ast.Expr) string {
 		if obj == nil {
 			bad("unresolved identifier %s", x.Name)
 		}
+		if _, isNil := obj.(*types.Nil); isNil {
+			if _, ok := t.typeOf(e).Underlying().(*types.Slice); ok {
+				return "[]"
+			}
+			bad("nil of type %s", t.typeOf(e))
+		}
 		if _, ok := obj.(*types.Var); !ok {
 			bad("identifier %s is not a variable", x.Name)
+		}
+		if n, ok := t.pkgVars[obj]; ok {
+			return n
+		}
+		if obj.Parent() == t.pkg.Scope() {
+			bad("package-level variable %s is not translated", x.Name)
 		}
 		return t.name(obj)
 	case *ast.SelectorExpr:
@@ -542,11 +615,34 @@ func balanced(s string) bool {
 }
 
 func (t *tr) binary(op token.Token, X, Y ast.Expr, resTy types.Type) string {
-	switch op {
-	case token.LAND:
-		return "(" + t.expr(X) + " && " + t.expr(Y) + ")"
-	case token.LOR:
-		return "(" + t.expr(X) + " || " + t.expr(Y) + ")"
+	if op == token.LAND || op == token.LOR {
+		x := t.expr(X)
+		saved, before := t.pre, t.actN
+		t.pre = nil
+		y := t.expr(Y)
+		yPre := t.pre
+		t.pre = saved
+		sym := " && "
+		if op == token.LOR {
+			sym = " || "
+		}
+		if t.actN == before && len(yPre) == 0 {
+			return "(" + x + sym + y + ")"
+		}
+		// the right operand can panic: Go evaluates it only when the left one does not decide
+		v := fmt.Sprintf("sc%d'", t.tmpN)
+		t.tmpN++
+		t.pre = append(t.pre, fmt.Sprintf("let mut %s : Bool := %s", v, x))
+		if op == token.LAND {
+			t.pre = append(t.pre, fmt.Sprintf("if %s then", v))
+		} else {
+			t.pre = append(t.pre, fmt.Sprintf("if !%s then", v))
+		}
+		for _, l := range yPre {
+			t.pre = append(t.pre, "  "+l)
+		}
+		t.pre = append(t.pre, fmt.Sprintf("  %s := %s", v, y))
+		return v
 	}
 	xt := t.typeOf(X)
 	switch op {
@@ -571,6 +667,11 @@ func (t *tr) binary(op token.Token, X, Y ast.Expr, resTy types.Type) string {
 		}
 		return "(" + x + " >>> " + n + ")"
 	case token.EQL, token.NEQ, token.LSS, token.LEQ, token.GTR, token.GEQ:
+		for _, side := range []ast.Expr{X, Y} {
+			if id, ok := side.(*ast.Ident); ok && id.Name == "nil" {
+				bad("comparison with nil (nil and empty slices are not distinguished)")
+			}
+		}
 		// operand type: the typed one (an untyped constant adopts it; go/types records that)
 		x, y := t.expr(X), t.expr(Y)
 		w, signed, isInt := intKind(xt)
@@ -704,7 +805,52 @@ func (t *tr) call(c *ast.CallExpr) string {
 			switch id.Name {
 			case "len":
 				return "((" + t.expr(c.Args[0]) + ").length : Int)"
+			case "append":
+				st, ok := t.typeOf(c.Args[0]).Underlying().(*types.Slice)
+				if !ok {
+					bad("append to a non-slice")
+				}
+				_ = st
+				base := t.expr(c.Args[0])
+				if c.Ellipsis.IsValid() {
+					if len(c.Args) != 2 {
+						bad("append with spread and several arguments")
+					}
+					return "(" + base + " ++ " + t.expr(c.Args[1]) + ")"
+				}
+				var els []string
+				for _, a := range c.Args[1:] {
+					els = append(els, t.expr(a))
+				}
+				return "(" + base + " ++ [" + strings.Join(els, ", ") + "])"
+			case "copy":
+				// value = number of elements copied; the effect is emitted as a pre-statement
+				cnt := fmt.Sprintf("cnt%d'", t.tmpN)
+				t.tmpN++
+				o := &out{}
+				t.copyStmt(o, c)
+				for _, l := range strings.Split(strings.TrimRight(o.b.String(), "\n"), "\n") {
+					t.pre = append(t.pre, l)
+				}
+				dstLen := "((" + t.expr(c.Args[0]) + ").length : Int)"
+				if d, ok := c.Args[0].(*ast.SliceExpr); ok {
+					lo, hi := "(0 : Int)", "(("+t.expr(d.X)+").length : Int)"
+					if d.Low != nil {
+						lo = t.intOf(d.Low)
+					}
+					if d.High != nil {
+						hi = t.intOf(d.High)
+					}
+					dstLen = "(" + hi + " - " + lo + ")"
+				}
+				_ = cnt
+				return "(min " + dstLen + " ((" + t.expr(c.Args[1]) + ").length : Int))"
 			case "make":
+				if len(c.Args) == 3 {
+					if tv, ok := t.info.Types[c.Args[1]]; ok && tv.Value != nil && tv.Value.ExactString() == "0" {
+						return "[]"
+					}
+				}
 				if len(c.Args) != 2 {
 					bad("make with capacity")
 				}
@@ -732,8 +878,8 @@ func (t *tr) call(c *ast.CallExpr) string {
 	if callee == nil {
 		bad("call of %s, which is not translated", t.src(c.Fun))
 	}
-	if callee.mutRecv {
-		bad("call of %s, which assigns through its receiver, in expression position", callee.goName)
+	if callee.mutRecv || len(callee.mutParam) > 0 {
+		bad("call of %s, which writes through a reference argument, in expression position", callee.goName)
 	}
 	s := callee.leanName
 	if recvArg != "" {
@@ -752,6 +898,17 @@ func (t *tr) composite(c *ast.CompositeLit) string {
 	ty := t.typeOf(c)
 	if p, ok := ty.(*types.Pointer); ok {
 		ty = p.Elem()
+	}
+	if sl, ok := ty.Underlying().(*types.Slice); ok {
+		_ = sl
+		var els []string
+		for _, el := range c.Elts {
+			if _, isKV := el.(*ast.KeyValueExpr); isKV {
+				bad("keyed slice literal")
+			}
+			els = append(els, t.expr(el))
+		}
+		return "[" + strings.Join(els, ", ") + "]"
 	}
 	n, ok := ty.(*types.Named)
 	if !ok {
@@ -798,11 +955,22 @@ func (o *out) line(format string, a ...any) {
 	o.b.WriteString("\n")
 }
 
+// emit writes one statement line, preceded by the pre-statements its expressions produced
+func (t *tr) emit(o *out, format string, a ...any) {
+	pre := t.pre
+	t.pre = nil
+	for _, l := range pre {
+		o.line("%s", l)
+	}
+	o.line(format, a...)
+}
+
 func (t *tr) retExpr(vals []string) string {
 	var parts []string
 	if t.meta.mutRecv {
 		parts = append(parts, t.name(t.recv))
 	}
+	parts = append(parts, t.meta.mutParam...)
 	parts = append(parts, vals...)
 	switch len(parts) {
 	case 0:
@@ -824,7 +992,7 @@ func (t *tr) assign(o *out, lhs ast.Expr, rhs string) {
 		if obj == nil {
 			obj = t.info.Defs[l]
 		}
-		o.line("%s := %s", t.name(obj), rhs)
+		t.emit(o, "%s := %s", t.name(obj), rhs)
 	case *ast.SelectorExpr:
 		sel := t.info.Selections[l]
 		if sel == nil || sel.Kind() != types.FieldVal {
@@ -835,7 +1003,7 @@ func (t *tr) assign(o *out, lhs ast.Expr, rhs string) {
 			bad("assignment to nested field %s", t.src(l))
 		}
 		bobj := t.info.Uses[base]
-		o.line("%s := { %s with %s := %s }", t.name(bobj), t.name(bobj), sel.Obj().Name(), rhs)
+		t.emit(o, "%s := { %s with %s := %s }", t.name(bobj), t.name(bobj), sel.Obj().Name(), rhs)
 	case *ast.IndexExpr:
 		// a[i] = v  with a a variable or a field of a variable
 		upd := t.act("Go.set " + t.atom(l.X) + " " + t.atomS(t.intOf(l.Index)) + " " + t.atomS(rhs))
@@ -902,7 +1070,7 @@ func (t *tr) stmt(o *out, s ast.Stmt) {
 				if i < len(vs.Values) {
 					v = t.expr(vs.Values[i])
 				}
-				o.line("let mut %s : %s := %s", t.name(obj), t.leanType(obj.Type()), v)
+				t.emit(o, "let mut %s : %s := %s", t.name(obj), t.leanType(obj.Type()), v)
 			}
 		}
 	case *ast.AssignStmt:
@@ -912,7 +1080,7 @@ func (t *tr) stmt(o *out, s ast.Stmt) {
 			}
 			// foreign-typed field (e.g. a time stamp): the statement is dropped
 			if len(x.Lhs) == 1 && !t.lhsSupported(x.Lhs[0]) {
-				o.line("-- omitted (field of a type outside the subset): %s", t.src(x))
+				t.emit(o, "-- omitted (field of a type outside the subset): %s", t.src(x))
 				return
 			}
 			if len(x.Lhs) > 1 {
@@ -920,12 +1088,16 @@ func (t *tr) stmt(o *out, s ast.Stmt) {
 				var tmps []string
 				for i, r := range x.Rhs {
 					tmp := fmt.Sprintf("tmp%d'", i)
-					o.line("let %s := %s", tmp, t.expr(r))
+					t.emit(o, "let %s := %s", tmp, t.expr(r))
 					tmps = append(tmps, tmp)
 				}
 				for i, l := range x.Lhs {
 					t.assignOrDefine(o, x.Tok, l, tmps[i])
 				}
+				return
+			}
+			if id, ok := x.Rhs[0].(*ast.Ident); ok && id.Name == "nil" {
+				t.assignOrDefine(o, x.Tok, x.Lhs[0], t.zero(t.typeOf(x.Lhs[0])))
 				return
 			}
 			t.assignOrDefine(o, x.Tok, x.Lhs[0], t.expr(x.Rhs[0]))
@@ -947,31 +1119,37 @@ func (t *tr) stmt(o *out, s ast.Stmt) {
 				vals = append(vals, t.expr(r))
 			}
 		}
-		o.line("return %s", t.retExpr(vals))
+		t.emit(o, "return %s", t.retExpr(vals))
 	case *ast.IfStmt:
 		if x.Init != nil {
 			t.stmt(o, x.Init)
 		}
-		o.line("if %s then", t.expr(x.Cond))
+		t.emit(o, "if %s then", t.expr(x.Cond))
 		o.indent++
 		n := o.b.Len()
 		t.stmts(o, x.Body.List)
 		if o.b.Len() == n {
-			o.line("pure ()")
+			t.emit(o, "pure ()")
 		}
 		o.indent--
 		if x.Else != nil {
-			o.line("else")
+			t.emit(o, "else")
 			o.indent++
 			n := o.b.Len()
 			t.stmt(o, x.Else)
 			if o.b.Len() == n {
-				o.line("pure ()")
+				t.emit(o, "pure ()")
 			}
 			o.indent--
 		}
 	case *ast.ForStmt:
-		t.forStmt(o, x)
+		if t.countingLoop(x) {
+			t.forStmt(o, x)
+		} else {
+			t.generalLoop(o, x)
+		}
+	case *ast.RangeStmt:
+		t.rangeStmt(o, x)
 	case *ast.SwitchStmt:
 		t.switchStmt(o, x)
 	case *ast.BranchStmt:
@@ -980,12 +1158,12 @@ func (t *tr) stmt(o *out, s ast.Stmt) {
 			if x.Label != nil {
 				bad("labelled break")
 			}
-			o.line("break")
+			t.emit(o, "break")
 		case token.CONTINUE:
 			if x.Label != nil {
 				bad("labelled continue")
 			}
-			o.line("continue")
+			t.emit(o, "continue")
 		default:
 			bad("branch statement %s", x.Tok)
 		}
@@ -1000,31 +1178,63 @@ func (t *tr) assignOrDefine(o *out, tok token.Token, lhs ast.Expr, rhs string) {
 			return
 		}
 		if obj := t.info.Defs[id]; obj != nil { // newly declared here
-			o.line("let mut %s : %s := %s", t.name(obj), t.leanType(obj.Type()), rhs)
+			t.emit(o, "let mut %s : %s := %s", t.name(obj), t.leanType(obj.Type()), rhs)
 			return
 		}
 	}
 	t.assign(o, lhs, rhs)
 }
 
+// copyStmt: copy(dst[a:b], src) / copy(dst, src) with dst rooted at a variable or a field of one
+func (t *tr) copyStmt(o *out, c *ast.CallExpr) {
+	dst, src := c.Args[0], t.atom(c.Args[1])
+	switch d := dst.(type) {
+	case *ast.SliceExpr:
+		lo, hi := "(0 : Int)", "(("+t.expr(d.X)+").length : Int)"
+		if d.Low != nil {
+			lo = t.intOf(d.Low)
+		}
+		if d.High != nil {
+			hi = t.intOf(d.High)
+		}
+		t.assign(o, d.X, t.act("Go.copyInto "+t.atom(d.X)+" "+t.atomS(lo)+" "+t.atomS(hi)+" "+src))
+	default:
+		t.assign(o, dst, t.act("Go.copyInto "+t.atom(dst)+" (0 : Int) (("+t.expr(dst)+").length : Int) "+src))
+	}
+}
+
 func (t *tr) callStmt(o *out, c *ast.CallExpr) {
 	if id, ok := c.Fun.(*ast.Ident); ok {
 		if _, isB := t.info.Uses[id].(*types.Builtin); isB && id.Name == "copy" {
-			// copy(dst[a:b], src) / copy(dst, src): dst rooted at a variable or a field of one
-			dst, src := c.Args[0], t.atom(c.Args[1])
-			switch d := dst.(type) {
-			case *ast.SliceExpr:
-				lo, hi := "(0 : Int)", "(("+t.expr(d.X)+").length : Int)"
-				if d.Low != nil {
-					lo = t.intOf(d.Low)
+			t.copyStmt(o, c)
+			return
+		}
+		// a translated procedure that writes through exactly one slice argument
+		if callee := t.byObj[t.info.Uses[id]]; callee != nil && len(callee.mutParam) == 1 && !callee.mutRecv &&
+			(callee.decl.Type.Results == nil || callee.decl.Type.Results.NumFields() == 0) {
+			idx := -1
+			k := 0
+			for _, p := range callee.decl.Type.Params.List {
+				for _, nm := range p.Names {
+					if mangle(nm.Name) == callee.mutParam[0] {
+						idx = k
+					}
+					k++
 				}
-				if d.High != nil {
-					hi = t.intOf(d.High)
-				}
-				t.assign(o, d.X, t.act("Go.copyInto "+t.atom(d.X)+" "+t.atomS(lo)+" "+t.atomS(hi)+" "+src))
-			default:
-				t.assign(o, dst, t.act("Go.copyInto "+t.atom(dst)+" (0 : Int) (("+t.expr(dst)+").length : Int) "+src))
 			}
+			if idx < 0 || idx >= len(c.Args) {
+				bad("call statement %s", t.src(c))
+			}
+			sx := callee.leanName
+			for _, a := range c.Args {
+				sx += " " + t.atom(a)
+			}
+			if callee.panics {
+				sx = t.act(sx)
+			} else {
+				sx = "(" + sx + ")"
+			}
+			t.assign(o, c.Args[idx], sx)
 			return
 		}
 	}
@@ -1070,6 +1280,145 @@ func assigned(body ast.Node, info *types.Info, obj types.Object) bool {
 		return true
 	})
 	return found
+}
+
+// countingLoop: `for i := a; i < b; i++` whose variable and bound the body leaves alone
+func (t *tr) countingLoop(f *ast.ForStmt) (ok bool) {
+	as, isAs := f.Init.(*ast.AssignStmt)
+	if !isAs || as.Tok != token.DEFINE || len(as.Lhs) != 1 || len(as.Rhs) != 1 || f.Cond == nil || f.Post == nil {
+		return false
+	}
+	cond, isB := f.Cond.(*ast.BinaryExpr)
+	inc, isInc := f.Post.(*ast.IncDecStmt)
+	return isB && cond.Op == token.LSS && isInc && inc.Tok == token.INC
+}
+
+// generalLoop: `for cond { body }` (also with init / post).  Lean needs a bound: the loop runs
+// at most FUEL times, FUEL being a Go expression configured per function (default: the length
+// of the first slice parameter plus one); if the condition still holds afterwards the
+// translated function fails with "loop fuel exhausted", which the tie theorems rule out.
+func (t *tr) generalLoop(o *out, f *ast.ForStmt) {
+	if f.Init != nil {
+		t.stmt(o, f.Init)
+	}
+	hasContinue := false
+	ast.Inspect(f.Body, func(n ast.Node) bool {
+		switch b := n.(type) {
+		case *ast.ForStmt, *ast.RangeStmt:
+			return false
+		case *ast.BranchStmt:
+			if b.Tok == token.CONTINUE {
+				hasContinue = true
+			}
+		}
+		return true
+	})
+	if hasContinue && f.Post != nil {
+		bad("continue in a loop with a post statement")
+	}
+	fuel := t.fuelFor(t.loopN)
+	t.loopN++
+	cond := "true"
+	if f.Cond != nil {
+		cond = t.expr(f.Cond)
+		if len(t.pre) > 0 {
+			bad("loop condition with side effects")
+		}
+	}
+	t.meta.panics = true
+	t.emit(o, "for _ in List.range (%s).toNat do", fuel)
+	o.indent++
+	t.emit(o, "if !(%s) then break", cond)
+	t.stmts(o, f.Body.List)
+	if f.Post != nil {
+		t.stmt(o, f.Post)
+	}
+	o.indent--
+	if f.Cond != nil {
+		t.emit(o, "if %s then throw \"loop fuel exhausted\"", cond)
+	} else {
+		t.emit(o, "throw \"loop fuel exhausted\"")
+	}
+}
+
+// fuelFor: the bound of the n-th general loop of the current function, as a Lean Int expression
+func (t *tr) fuelFor(n int) string {
+	key := t.pkgName + "." + t.meta.goName
+	if exprs, ok := loopFuel[key]; ok && n < len(exprs) {
+		e, err := parser.ParseExpr(exprs[n])
+		if err != nil {
+			bad("fuel expression %q does not parse", exprs[n])
+		}
+		if err := types.CheckExpr(t.fset, t.pkg, t.meta.decl.Body.Rbrace, e, t.info); err != nil {
+			bad("fuel expression %q: %v", exprs[n], err)
+		}
+		return t.intOf(e)
+	}
+	for _, p := range t.meta.decl.Type.Params.List {
+		for _, nm := range p.Names {
+			obj := t.info.Defs[nm]
+			if _, ok := obj.Type().Underlying().(*types.Slice); ok {
+				return "(((" + t.name(obj) + "0').length : Int) + 1)"
+			}
+		}
+	}
+	bad("no fuel bound for the loop")
+	return ""
+}
+
+func (t *tr) rangeStmt(o *out, r *ast.RangeStmt) {
+	if r.Tok != token.DEFINE && r.Key != nil {
+		bad("range with assignment to existing variables")
+	}
+	xt := t.typeOf(r.X)
+	if _, ok := xt.Underlying().(*types.Slice); !ok {
+		bad("range over %s", xt)
+	}
+	isBlank := func(e ast.Expr) bool {
+		if e == nil {
+			return true
+		}
+		id, ok := e.(*ast.Ident)
+		return ok && id.Name == "_"
+	}
+	// the ranged-over slice is evaluated once
+	xs := t.expr(r.X)
+	switch {
+	case isBlank(r.Key) && isBlank(r.Value):
+		t.emit(o, "for _ in %s do", xs)
+		o.indent++
+	case isBlank(r.Key):
+		v := t.info.Defs[r.Value.(*ast.Ident)]
+		if assigned(r.Body, t.info, v) {
+			bad("range value assigned in the loop body")
+		}
+		t.emit(o, "for %s in %s do", t.name(v), xs)
+		o.indent++
+	default:
+		k := t.info.Defs[r.Key.(*ast.Ident)]
+		if assigned(r.Body, t.info, k) {
+			bad("range key assigned in the loop body")
+		}
+		kn := t.name(k) + "'k"
+		if isBlank(r.Value) {
+			t.emit(o, "for %s in List.range (%s).length do", kn, xs)
+			o.indent++
+		} else {
+			v := t.info.Defs[r.Value.(*ast.Ident)]
+			if assigned(r.Body, t.info, v) {
+				bad("range value assigned in the loop body")
+			}
+			t.emit(o, "for (%s, %s) in (%s).zipIdx.map (fun p => (p.2, p.1)) do", kn, t.name(v), xs)
+			o.indent++
+		}
+		t.emit(o, "let %s : Int := (%s : Int)", t.name(k), kn)
+	}
+	n := o.b.Len()
+	t.stmts(o, r.Body.List)
+	if o.b.Len() == n {
+		t.emit(o, "pure ()")
+	}
+	o.indent--
 }
 
 func (t *tr) forStmt(o *out, f *ast.ForStmt) {
@@ -1131,13 +1480,13 @@ func (t *tr) forStmt(o *out, f *ast.ForStmt) {
 	a, b := t.expr(as.Rhs[0]), t.expr(cond.Y)
 	k := t.name(iobj) + "'k"
 	if a == "(0 : Int)" {
-		o.line("for %s in List.range (%s).toNat do", k, b)
+		t.emit(o, "for %s in List.range (%s).toNat do", k, b)
 		o.indent++
-		o.line("let %s : Int := (%s : Int)", t.name(iobj), k)
+		t.emit(o, "let %s : Int := (%s : Int)", t.name(iobj), k)
 	} else {
-		o.line("for %s in List.range (%s - %s).toNat do", k, b, a)
+		t.emit(o, "for %s in List.range (%s - %s).toNat do", k, b, a)
 		o.indent++
-		o.line("let %s : Int := %s + (%s : Int)", t.name(iobj), a, k)
+		t.emit(o, "let %s : Int := %s + (%s : Int)", t.name(iobj), a, k)
 	}
 	t.stmts(o, f.Body.List)
 	o.indent--
@@ -1176,12 +1525,12 @@ func (t *tr) switchStmt(o *out, s *ast.SwitchStmt) {
 			kw = "if"
 			first = false
 		}
-		o.line("%s %s then", kw, strings.Join(conds, " || "))
+		t.emit(o, "%s %s then", kw, strings.Join(conds, " || "))
 		o.indent++
 		n := o.b.Len()
 		t.stmts(o, cc.Body)
 		if o.b.Len() == n {
-			o.line("pure ()")
+			t.emit(o, "pure ()")
 		}
 		o.indent--
 	}
@@ -1190,12 +1539,12 @@ func (t *tr) switchStmt(o *out, s *ast.SwitchStmt) {
 			t.stmts(o, dflt.Body)
 			return
 		}
-		o.line("else")
+		t.emit(o, "else")
 		o.indent++
 		n := o.b.Len()
 		t.stmts(o, dflt.Body)
 		if o.b.Len() == n {
-			o.line("pure ()")
+			t.emit(o, "pure ()")
 		}
 		o.indent--
 	}
@@ -1251,6 +1600,56 @@ func assignsThroughRecv(fd *ast.FuncDecl) bool {
 	return found
 }
 
+// writtenSliceParams: parameters `p []T` with `p[i] = v`, `p[i] op= v` or `copy(p.., ..)` in the body
+func writtenSliceParams(fd *ast.FuncDecl) []string {
+	var outp []string
+	for _, p := range fd.Type.Params.List {
+		if _, ok := p.Type.(*ast.ArrayType); !ok {
+			continue
+		}
+		for _, nm := range p.Names {
+			rooted := func(e ast.Expr) bool {
+				for {
+					switch x := e.(type) {
+					case *ast.IndexExpr:
+						e = x.X
+					case *ast.SliceExpr:
+						e = x.X
+					case *ast.Ident:
+						return x.Name == nm.Name
+					default:
+						return false
+					}
+				}
+			}
+			found := false
+			ast.Inspect(fd.Body, func(n ast.Node) bool {
+				switch s := n.(type) {
+				case *ast.AssignStmt:
+					for _, l := range s.Lhs {
+						if _, isId := l.(*ast.Ident); !isId && rooted(l) {
+							found = true
+						}
+					}
+				case *ast.CallExpr:
+					if id, ok := s.Fun.(*ast.Ident); ok && id.Name == "copy" && len(s.Args) == 2 {
+						if _, isId := s.Args[0].(*ast.Ident); !isId && rooted(s.Args[0]) {
+							found = true
+						} else if isId && rooted(s.Args[0]) {
+							found = true
+						}
+					}
+				}
+				return true
+			})
+			if found {
+				outp = append(outp, mangle(nm.Name))
+			}
+		}
+	}
+	return outp
+}
+
 func (t *tr) function(m *fnMeta) (text string, err error) {
 	defer func() {
 		if r := recover(); r != nil {
@@ -1267,8 +1666,19 @@ func (t *tr) function(m *fnMeta) (text string, err error) {
 	t.meta = m
 	t.recv = nil
 	t.results = nil
+	t.pre = nil
+	t.tmpN = 0
+	t.loopN = 0
 	var params []string
 	var muts []string
+	var snaps []string
+	hasGeneralLoop := false
+	ast.Inspect(fd.Body, func(n ast.Node) bool {
+		if f, ok := n.(*ast.ForStmt); ok && !t.countingLoop(f) {
+			hasGeneralLoop = true
+		}
+		return true
+	})
 	if fd.Recv != nil {
 		rid := fd.Recv.List[0].Names[0]
 		t.recv = t.info.Defs[rid]
@@ -1281,14 +1691,32 @@ func (t *tr) function(m *fnMeta) (text string, err error) {
 		for _, nm := range p.Names {
 			obj := t.info.Defs[nm]
 			params = append(params, fmt.Sprintf("(%s : %s)", t.name(obj), t.leanType(obj.Type())))
-			if assigned(fd.Body, t.info, obj) {
+			isMutP := false
+			for _, mp := range m.mutParam {
+				if mp == t.name(obj) {
+					isMutP = true
+				}
+			}
+			if assigned(fd.Body, t.info, obj) || isMutP {
 				muts = append(muts, t.name(obj))
+			}
+			if _, isSlice := obj.Type().Underlying().(*types.Slice); isSlice && hasGeneralLoop {
+				snaps = append(snaps, t.name(obj))
 			}
 		}
 	}
 	var resTypes []string
 	if m.mutRecv {
 		resTypes = append(resTypes, t.leanType(t.recv.Type()))
+	}
+	for _, p := range fd.Type.Params.List {
+		for _, nm := range p.Names {
+			for _, mp := range m.mutParam {
+				if mp == mangle(nm.Name) {
+					resTypes = append(resTypes, t.leanType(t.info.Defs[nm].Type()))
+				}
+			}
+		}
 	}
 	var resDecl []string
 	if fd.Type.Results != nil {
@@ -1310,11 +1738,14 @@ func (t *tr) function(m *fnMeta) (text string, err error) {
 	}
 	// body first (it decides whether the function is monadic)
 	o := &out{indent: 1}
+	for _, sn := range snaps {
+		t.emit(o, "let %s0' := %s", sn, sn)
+	}
 	for _, mname := range muts {
-		o.line("let mut %s := %s", mname, mname)
+		t.emit(o, "let mut %s := %s", mname, mname)
 	}
 	for _, d := range resDecl {
-		o.line("%s", d)
+		t.emit(o, "%s", d)
 	}
 	t.stmts(o, fd.Body.List)
 	// fall-through return (procedures and named results)
@@ -1326,7 +1757,7 @@ func (t *tr) function(m *fnMeta) (text string, err error) {
 		if fd.Type.Results != nil && fd.Type.Results.NumFields() > 0 && len(t.results) == 0 {
 			bad("function can fall off its end")
 		}
-		o.line("return %s", t.retExpr(vals))
+		t.emit(o, "return %s", t.retExpr(vals))
 	}
 	var b strings.Builder
 	fmt.Fprintf(&b, "/-- translated from `%s` -/\n", m.goName)
@@ -1417,10 +1848,23 @@ func translatePackage(repo, name string, w *strings.Builder, untranslated *[]str
 			fmt.Fprintf(w, "-- %s: no such function in the tree\n\n", fn)
 		}
 	}
-	fset, file, info, tp, err := synth(d, name, present)
+	fset, file, info, tp, droppedFns, err := synth(d, name, present)
+	{
+		var ks []string
+		for k := range droppedFns {
+			ks = append(ks, k)
+		}
+		sort.Strings(ks)
+		for _, k := range ks {
+			*untranslated = append(*untranslated, name+"."+k)
+			fmt.Fprintf(w, "-- %s not translated: %s\n\n", k, droppedFns[k])
+		}
+	}
 	if err != nil {
 		for _, fn := range present {
-			*untranslated = append(*untranslated, name+"."+fn)
+			if droppedFns[fn] == "" {
+				*untranslated = append(*untranslated, name+"."+fn)
+			}
 		}
 		fmt.Fprintf(w, "-- package not translated: %s\n\n", strings.ReplaceAll(err.Error(), "\n", " "))
 		return
@@ -1446,6 +1890,7 @@ func translatePackage(repo, name string, w *strings.Builder, untranslated *[]str
 		m.goName = key
 		m.leanName = key
 		m.mutRecv = assignsThroughRecv(fd)
+		m.mutParam = writtenSliceParams(fd)
 		t.byObj[m.obj] = m
 		metas = append(metas, m)
 	}
@@ -1462,6 +1907,42 @@ func translatePackage(repo, name string, w *strings.Builder, untranslated *[]str
 					w.WriteString(t.structure(n))
 					w.WriteString("\n")
 				}
+			}
+		}
+	}
+	// package-level slice variables the functions read (assumed never reassigned: checked below)
+	t.pkgVars = map[types.Object]string{}
+	t.pkgName = name
+	for _, dc := range file.Decls {
+		gd, ok := dc.(*ast.GenDecl)
+		if !ok || gd.Tok != token.VAR {
+			continue
+		}
+		for _, sp := range gd.Specs {
+			vs := sp.(*ast.ValueSpec)
+			for i, nm := range vs.Names {
+				if nm.Name == "_" || i >= len(vs.Values) {
+					continue
+				}
+				obj := info.Defs[nm]
+				func() {
+					defer func() {
+						if r := recover(); r != nil {
+							if u, ok := r.(unsupported); ok {
+								fmt.Fprintf(w, "-- var %s not translated: %s\n\n", nm.Name, u.msg)
+								return
+							}
+							panic(r)
+						}
+					}()
+					t.names = map[types.Object]string{}
+					t.used = map[string]int{}
+					t.meta = &fnMeta{goName: "var " + nm.Name}
+					ty := t.leanType(obj.Type())
+					val := t.expr(vs.Values[i])
+					fmt.Fprintf(w, "/-- translated from `var %s` (package level; no translated function assigns it) -/\ndef %s : %s := %s\n\n", nm.Name, mangle(nm.Name), ty, val)
+					t.pkgVars[obj] = mangle(nm.Name)
+				}()
 			}
 		}
 	}
